@@ -209,11 +209,11 @@ DoRS(override) ==
                  <<e.ts = supss.start, Err("StepTs", at, supss.start, e.ts)>>,
                  <<e.h = hcur[k], Err("StepState", at, hcur[k], e.h)>>,
                  <<e.rngi = NA \/ e.rngi = nexec[k] + T.kinds[k].rng0, Err("StepRng", at, nexec[k] + T.kinds[k].rng0, e.rngi)>> >>
-         cs2 == IF override \/ lp >= Len(T.log) THEN <<>> ELSE <<
+         cs2 == IF override \/ lp >= Len(T.log) \/ e.kind # k THEN <<>> ELSE <<     \* (a log entry of another kind is already ExactlyOnce_WrongStep)
                  <<[a \in DOMAIN supss.wins |-> NormLogWin(e.wins[a])] = supss.wins, Err("ReadsRing", at, supss.wins, e.wins)>>,
                  <<\A a \in DOMAIN supss.wins : ScheduledOk(T, exec, a, supss.wins[a]), Err("ScheduledPayload", at, "payload of the scheduled sequence number", supss.wins)>>,
                  <<e.h_out = hn, Err("StepOutput", at, hn, e.h_out)>> >>
-         refc == IF ~override /\ lp < Len(T.log) /\ "ref" \in DOMAIN T /\ k \in DOMAIN T.ref /\ supss.seq < Len(T.ref[k])
+         refc == IF ~override /\ lp < Len(T.log) /\ e.kind = k /\ "ref" \in DOMAIN T /\ k \in DOMAIN T.ref /\ supss.seq < Len(T.ref[k])
                  THEN LET r == T.ref[k][supss.seq + 1] IN <<
                     <<r.ts = e.ts, Err("MatchesAsync_Ts", at, r.ts, e.ts)>>,
                     <<r.h = e.h, Err("MatchesAsync_State", at, r.h, e.h)>>,
@@ -233,6 +233,22 @@ DoRS(override) ==
              /\ opi' = opi + 1
              /\ supss' = [supss EXCEPT !.seq = @ + 1]     \* the supervisor's step state carries seq + 1 after its step
              /\ UNCHANGED <<tid, err, fin>>
+
+(* C08, judged on the probe log alone (independent of the machine above, so that it is still decided when the run is rejected by a clause  *)
+(* of another property, e.g. a permuted execution order): every window entry a step was handed carries the payload the producer emitted at   *)
+(* the sequence number the entry names, the default output for negative ones.                                                                *)
+PayloadErr(t) ==
+  LET L == t.log
+      Emis(a, q) == {L[i].h_out : i \in {i \in 1..Len(L) : L[i].kind = a /\ L[i].seq = q}}
+      BadAt(i) == {<<a, j>> \in UNION {{<<a, j>> : j \in 1..Len(L[i].wins[a])} : a \in DOMAIN L[i].wins} :
+                     LET w == L[i].wins[a][j] IN
+                     IF w.seq < 0 THEN ~(w.eps = -1 /\ w.dseq = -1 /\ w.h = 0)
+                     ELSE Emis(a, w.seq) # {} /\ ~(w.h \in Emis(a, w.seq) /\ w.dseq = w.seq /\ w.eps = t.eps)}
+      bad == {i \in 1..Len(L) : BadAt(i) # {}}
+  IN IF bad = {} THEN NoErr
+     ELSE LET i == CHOOSE x \in bad : \A y \in bad : x <= y
+              aj == CHOOSE x \in BadAt(i) : TRUE
+          IN Err("PayloadOfNamedSeq", <<L[i].kind, L[i].seq, aj[1], aj[2]>>, Emis(aj[1], L[i].wins[aj[1]][aj[2]].seq), L[i].wins[aj[1]][aj[2]])
 
 (* ---- completion: the record in aux['record'] (C13) and the final abstract state (C09) ---------- *)
 RecErr ==
@@ -259,7 +275,8 @@ FinalErr ==
   ELSE IF "final" \in DOMAIN T /\ \E k \in DOMAIN T.final.seq : T.final.seq[k] # NA /\ nexec[k] > 0 /\
              T.final.seq[k] # (IF k = T.sup THEN supss.seq ELSE (CHOOSE m \in DOMAIN exec[k] : \A m2 \in DOMAIN exec[k] : m >= m2) + 1)
        THEN Err("FinalSeq", <<>>, exec, T.final.seq)
-  ELSE RecErr
+  ELSE IF RecErr # NoErr THEN RecErr
+  ELSE PayloadErr(T)
 
 ---------------------------------------------------------------------------
 InitFor(i) ==
@@ -276,7 +293,8 @@ RInit == InitFor(1)
 
 Verdict(e) ==
   PrintT("VERDICT|" \o ToString(tid) \o "|" \o T.id \o "|" \o (IF e = NoErr THEN "accept" ELSE "reject") \o "|"
-         \o (IF e = NoErr THEN "-" ELSE e.clause) \o "|" \o ToString(e))
+         \o (IF e = NoErr THEN "-" ELSE e.clause) \o "|" \o ToString(e)
+         \o (IF e # NoErr /\ e.clause # "PayloadOfNamedSeq" /\ PayloadErr(T) # NoErr THEN " ALSO " \o ToString(PayloadErr(T)) ELSE ""))
 
 DoOp ==
   /\ err = NoErr /\ opi <= Len(T.ops) /\ ~fin
